@@ -82,4 +82,21 @@ CONTRACTS = [
                                 C("dirs_unchanged", "forall(d, 'Val[Path]', (d in g_dirs) == at_loop(d in g_dirs))"),
                                 C("foreign_entries_kept", "forall(p, 'Val[Path]', implies(at_loop((p in g_entries) and not (p in g_link)), (p in g_entries) and not (p in g_link)))"),
                             ])}),
+
+    # ------------------------------------------------------------------ task_types/combine.py: the precondition of the operation is established when the task is defined
+    Contract("ext::TaskType.__init__", params={"identifier": "TaskIdentifier", "cond_file_path": "Val[Path]", "deps": "Seq[TaskIdentifier]"},
+             modifies=["TaskType._identifier@self", "TaskType._cond_file_path@self", "TaskType._deps@self"],
+             ensures=["self._identifier == identifier", "self._deps == deps"], trusted_reason="TaskType.__init__: three field assignments"),
+    Contract("task_types/combine.py::Combine.__init__", params={"identifier": "TaskIdentifier", "cond_file_path": "Val[Path]", "deps": "Seq[TaskIdentifier]"},
+             props=["C18", "C15"], locals={"task_names": "Set[str]#cnames"},
+             prefer_ext={"TaskType.__init__": "TaskType.__init__"},
+             modifies=["TaskType._identifier@self", "TaskType._cond_file_path@self", "TaskType._deps@self", "$alloc", "ConductorError.extra_context_set", "ConductorError.file_context_set"],
+             ensures=[C("dependency_names_are_pairwise_distinct",
+                        "forall(i, 'int', forall(k, 'int', implies(0 <= i and i < k and k < seq_len(deps), select(deps, i)._name != select(deps, k)._name)))", "C18", "C15"),
+                      C("dependencies_kept_as_declared", "self._deps == deps and self._identifier == identifier", "C18")],
+             raises={"CombineDuplicateDepName": [C("two_dependencies_share_a_name",
+                                                   "exists(i, 'int', exists(k, 'int', 0 <= i and i < k and k < seq_len(deps) and select(deps, i)._name == select(deps, k)._name))", "C15")]},
+             loops={0: Loop(header="for dep in deps:", index="n", modifies=["set@task_names"],
+                            invariant=[C("names_seen", "forall(x, 'str', (x in task_names) == exists(i, 'int', 0 <= i and i < n and select(deps, i)._name == x))"),
+                                       C("distinct_so_far", "forall(i, 'int', forall(k, 'int', implies(0 <= i and i < k and k < n, select(deps, i)._name != select(deps, k)._name)))")])}),
 ]
